@@ -414,6 +414,11 @@ namespace cs
                     case 4:
                         op_array<Inst<40, 16>>(c, env.la[0], 0, n, k % (n + 2)); // (n may be 0)
                         break;
+                    case 5:
+                        // an array of a type whose default constructor is noexcept (the helper's loop without
+                        // roll-back): n elements alive afterwards, each destroyed once with the owner
+                        op_array<TN>(c, env.la[0], 0, n, 0);
+                        break;
                     case 6:
                         op_shared<Inst<40, 64>>(c, env.la[0], 0, k % 3); // an over-aligned type (alignas(64))
                         break;
